@@ -164,6 +164,18 @@ def run_case(case, tier):
         recs = sources.random_small_structure(rng, 80, 900)
     else:
         recs, _ = sources.chimera(rng)
+    if case["kind"] != "file" and edit != "keep-protons-feedback" and rng.random() < 0.35:
+        # ligands of the fragment library (amines, amidinium, guanidinium, carboxylate, rings ...)
+        # next to an ionizable side chain: their typing must not depend on hydrogens either
+        from .. import fragments
+        from .c16 import titratable_anchor
+        for kfrag in range(rng.choice((1, 1, 2))):
+            fname = rng.choice(sorted(fragments.FRAGMENTS))
+            frag, _e, _d = fragments.place_near(recs, fname, rng, anchor=titratable_anchor(recs, rng),
+                                                dist_A=rng.choice((3.0, 3.5, 4.5, 6.0)), resnum=900 + kfrag, min_clear_A=2.7)
+            if frag:
+                recs = recs + frag
+                classes.append("ligand-fragment:" + fname)
     if edit == "keep-protons-feedback" and not amino_only(recs):
         recs = [r for r in recs if r.raw is not None or r.tag == "ATOM  "]
     recs = sources.no_hydrogens(recs) if edit in ("keep-protons-feedback",) else recs
